@@ -217,6 +217,9 @@ def run(ctx, rep):
                             if s_["k"] == "Let" and s_["pat"]["k"] == "Bind" and s_["pat"]["name"] == flag and s_.get("init"):
                                 init = F.pp(s_["init"])
                 rep.check("C19.3", "C19.3/is_valid/flag-init", init == "False", loc=F.short_file(b["sp"]), found="flag initial value %s" % init, expected="false", nontrivial=False)
+    import api_rules as AR
+    ng = AR.check_getters(fx, rep, "C19.api", "mapping::MappingSummary")
+    rep.floor("C19.api", ng, 5, "MappingSummary getters")
     # control: an early negative exit is a different per-record structure
     cx = ctx.controls()
     bs = [bb for q, bb in cx.bodies.items() if q.endswith("shapes::ctl_early_negative_exit")]
